@@ -920,7 +920,9 @@ def schema_writeback(repo: Repo, name: str):
         if isinstance(st, ast.Return) and st.value is not None and any(st in ast.walk(b) for b in fn.body if not isinstance(b, (ast.FunctionDef,))):
             v = st.value
             if isinstance(v, ast.Name) and v.id == out_name:
-                kinds.add("raw")
+                # `if not destinations: return output`: nothing quantized was written, the value of the op is the answer
+                under_empty = any(isinstance(i_, ast.If) and U(i_.test) in (f"not {pairs}", f"len({pairs}) == 0", f"{pairs} == []") and any(st is y for b_ in i_.body for y in ast.walk(b_)) for i_ in nodes)
+                kinds.add("mapped" if under_empty else "raw")
             elif isinstance(v, ast.Call) and isinstance(v.func, ast.Name) and (any(isinstance(d, ast.FunctionDef) and d.name == v.func.id for d in fn.body) or any(d.name == v.func.id for d in region[1:])):
                 d = next((d for d in fn.body if isinstance(d, ast.FunctionDef) and d.name == v.func.id), None) or next(d for d in region[1:] if d.name == v.func.id)
                 hands_back = any(isinstance(x, ast.Compare) and len(x.ops) == 1 and isinstance(x.ops[0], ast.Is) for x in ast.walk(d)) and any(isinstance(x, ast.For) and isinstance(x.iter, ast.Name) for x in ast.walk(d))
